@@ -5,6 +5,11 @@
   (These are the lemmas whose absence let the AtLeastKInARow tail defect live.)
 -/
 import SPModel.Compile
+import SPProofs.Compile.Runs
+import SPProofs.Compile.Windows
+import SPProofs.Compile.AtMost
+import SPProofs.Compile.AtLeast
+import SPProofs.Compile.ExactRow
 
 namespace SPModel.C01
 open SPModel SPModel.Compile
@@ -14,25 +19,31 @@ def bits (σ : Assign) (vars : List Int) : List Bool := vars.map (litVal σ)
 
 theorem atMost_iff (k : Nat) (vars : List Int) (σ : Assign) :
     (∀ r ∈ atMostRequests k vars, r.holds σ = true) ↔ ∀ n ∈ runs (bits σ vars), n ≤ k := by
-  sorry
+  rw [atMost_pos, runs_le_iff]; rfl
 
 theorem atLeast_iff (k : Nat) (hk : 0 < k) (vars : List Int) (σ : Assign) :
     (∀ f ∈ atLeastFormulas k vars, f.eval σ = true) ↔ ∀ n ∈ runs (bits σ vars), k ≤ n := by
-  sorry
+  rw [atLeast_pos k hk, runs_ge_iff]; rfl
 
 theorem exactlyInARow_iff (k : Nat) (hk : 0 < k) (vars : List Int) (σ : Assign) :
     (∀ f ∈ exactlyInARowFormulas k vars, f.eval σ = true) ↔ ∀ n ∈ runs (bits σ vars), n = k := by
-  sorry
+  rw [exactRow_pos k hk, runs_eq_iff]; rfl
 
 theorem exactlyK_iff (k : Nat) (hk : 0 < k) (vars : List Int) (σ : Assign) :
     (match exactlyK k vars with
      | .request r => r.holds σ = true
      | .contradiction => False) ↔ ((bits σ vars).filter id).length = k := by
-  sorry
+  unfold exactlyK bits
+  cases vars with
+  | nil => simp; omega
+  | cons v vs =>
+    simp only [List.isEmpty_cons, Bool.false_eq_true, if_false, Request.holds, beq_iff_eq]
+    rw [List.filter_map, List.length_map]
+    rfl
 
 /-- the total run length is the number of true entries (links run-length and counting constraints) -/
 theorem runs_sum (xs : List Bool) : (runs xs).foldl (· + ·) 0 = (xs.filter id).length := by
-  sorry
+  rw [foldl_add_eq_sum, runs_eq, sum_fin_foldl]; simp
 
 /-- Non-vacuity: the sequence r r r r g r violates "at least 4 in a row" and the encoding rejects it. -/
 example : (atLeastFormulas 4 [1, 2, 3, 4, 5, 6]).all (fun f => f.eval (fun v => v != 5)) = false := by decide
